@@ -14,10 +14,12 @@
     EclDefaultMaterial.hpp             three-phase combination, `updateHysteresis`               → `evalCell`, `updateCell`
 
   Three phases, keyword family I (SWOF + SGOF) or II (SWFN + SGFN + SOF3), no JFUNC, no SWATINIT,
-  Carlson hysteresis (EHYSTR item 2 = 0/1) without capillary-pressure hysteresis.
+  Carlson (EHYSTR item 2 = 0/1) or Killough (2/3) hysteresis of the non-wetting relperm without
+  capillary-pressure hysteresis.
   Core Lean only; generic scalar as in `Tab1D` / `Eps`.
 -/
 import OpmVerif.Model.Hyst
+import OpmVerif.Model.Killough
 
 namespace OpmVerif.SatDeck
 open OpmVerif.Tab1D OpmVerif.Eps OpmVerif.Hyst
@@ -285,29 +287,54 @@ def EpsLaw.krn (l : EpsLaw α) (sw : α) : α := epsKrn l.cfg l.tab l.u l.s sw
 def EpsLaw.pc (l : EpsLaw α) (sw : α) : α := epsPcnw l.cfg l.tab l.u l.s sw
 def EpsLaw.krnInv (l : EpsLaw α) (k : α) : α := epsKrnInv l.cfg l.tab l.u l.s k
 
-/-- `EclHysteresisTwoPhaseLawParams` restricted to Carlson: drainage + imbibition law. -/
+/-- `EclHysteresisTwoPhaseLawParams`: drainage + imbibition law, the hysteresis model and — for
+Killough — the static quantities `setDrainageParams` / `setImbibitionParams` take from the scaled
+end-point infos. -/
 structure HystLaw (α : Type) where
   enabled : Bool
-  model : Nat         -- krHysteresisModel 0 / 1
+  model : Nat         -- krHysteresisModel 0 / 1 (Carlson), 2 / 3 (Killough)
   d : EpsLaw α
   i : EpsLaw α
+  sncrd : α
+  sncri : α
+  snmaxd : α
+  modParam : α
+  tiny : α            -- the literal 1.0e-12 of `finalize()`
 
 def HystLaw.curves (h : HystLaw α) : Curves α :=
   { krnD := h.d.krn, krnI := h.i.krn, krnIInv := h.i.krnInv }
 
-/-- `EclHysteresisTwoPhaseLaw::twoPhaseSatKrw`: model 0 → drainage curve, model 1 → imbibition curve. -/
+/-- `KrndMax_ = EffLaw::twoPhaseSatKrn(drainageParams(), 1.0 - Snmaxd_)`. -/
+def HystLaw.killough (h : HystLaw α) : Killough.Static α :=
+  { Sncrd := h.sncrd, Sncri := h.sncri, Snmaxd := h.snmaxd, KrndMax := h.d.krn (1 - h.snmaxd),
+    modParam := h.modParam, krnD := h.d.krn, krnI := h.i.krn }
+
+/-- `EclHysteresisTwoPhaseLaw::twoPhaseSatKrw`: models 0 and 2 → drainage curve, 1 and 3 →
+imbibition curve. -/
 def HystLaw.krw (h : HystLaw α) (sw : α) : α :=
-  if ¬ h.enabled then h.d.krw sw else if h.model = 0 then h.d.krw sw else h.i.krw sw
+  if ¬ h.enabled then h.d.krw sw else if h.model = 0 ∨ h.model = 2 then h.d.krw sw else h.i.krw sw
 
 /-- `twoPhaseSatPcnw` with capillary-pressure hysteresis off: the drainage curve. -/
 def HystLaw.pc (h : HystLaw α) (sw : α) : α := h.d.pc sw
 
-/-- `twoPhaseSatKrn` (Carlson). -/
-def HystLaw.krn (h : HystLaw α) (st : State α) (sw : α) : α :=
-  if ¬ h.enabled then h.d.krn sw else Hyst.krn h.curves st sw
+/-- dynamic state of one two-phase law: the Carlson members and the Killough members -/
+structure HState (α : Type) where
+  c : State α
+  k : Killough.State α
+
+/-- `twoPhaseSatKrn`. -/
+def HystLaw.krn (h : HystLaw α) (st : HState α) (sw : α) : α :=
+  if ¬ h.enabled then h.d.krn sw
+  else if h.model ≤ 1 then Hyst.krn h.curves st.c sw
+  else Killough.krn h.killough st.k sw
 
 /-- state after `finalize()` (start value `krnSwMdc_ = 2.0`) -/
-def HystLaw.init (h : HystLaw α) (start : α) : State α := Hyst.init h.curves start
+def HystLaw.init (h : HystLaw α) (start : α) : HState α :=
+  { c := Hyst.init h.curves start, k := Killough.init h.killough h.tiny start }
+
+/-- `update(pcSw, krwSw, krnSw)` restricted to the non-wetting relperm state. -/
+def HystLaw.update (h : HystLaw α) (st : HState α) (krnSw : α) : HState α :=
+  { c := Hyst.update h.curves st.c krnSw, k := Killough.update h.killough h.tiny st.k krnSw }
 
 /-! ### The cell: both two-phase laws + `EclDefaultMaterial` -/
 
@@ -323,6 +350,8 @@ structure CellSpec (α : Type) where
   threepoint : Bool
   hyst : Bool
   model : Nat
+  modParam : α
+  tiny : α
   maskD : List Bool
   tabD : Tables α
   arrD : List α
@@ -337,13 +366,19 @@ def epsLaws (sp : CellSpec α) (tab : Tables α) (mask : List Bool) (arr : List 
    { cfg := configOW sp.endscale sp.threepoint sp.maskD, tab := effOW tab sp.tol, u := pointsOW u, s := pointsOW s },
    { cfg := configGO sp.endscale sp.threepoint sp.maskD, tab := effGO tab sp.tol u.Swl, u := pointsGO u, s := pointsGO s })
 
-/-- `InitParams::run` for one element. -/
+/-- `InitParams::run` for one element. The Killough statics are what `setDrainageParams` /
+`setImbibitionParams` read from the *scaled* infos: oil-water `Sncrd = Sowcr`, `Snmaxd = 1 - Swl - Sgl`;
+gas-oil `Sncrd = Sgcr + Swl`, `Snmaxd = Sgu + Swl`; `Sncri` the same expressions on the imbibition info. -/
 def buildCell (sp : CellSpec α) : Cell α :=
   let d := epsLaws sp sp.tabD sp.maskD sp.arrD
   let i := if sp.hyst then epsLaws sp sp.tabI sp.maskI sp.arrI else d
   { swl := d.1.Swl,
-    ow := { enabled := sp.hyst, model := sp.model, d := d.2.1, i := i.2.1 },
-    go := { enabled := sp.hyst, model := sp.model, d := d.2.2, i := i.2.2 } }
+    ow := { enabled := sp.hyst, model := sp.model, d := d.2.1, i := i.2.1,
+            sncrd := d.1.Sowcr, sncri := i.1.Sowcr, snmaxd := 1 - d.1.Swl - d.1.Sgl,
+            modParam := sp.modParam, tiny := sp.tiny },
+    go := { enabled := sp.hyst, model := sp.model, d := d.2.2, i := i.2.2,
+            sncrd := d.1.Sgcr + d.1.Swl, sncri := i.1.Sgcr + i.1.Swl, snmaxd := d.1.Sgu + d.1.Swl,
+            modParam := sp.modParam, tiny := sp.tiny } }
 
 /-- constants of `EclDefaultMaterial::krn`: `epsilon = 1e-5` and the literal 2 -/
 structure Consts (α : Type) where
@@ -356,8 +391,8 @@ structure Sat (α : Type) where
   sg : α
 
 structure CellState (α : Type) where
-  ow : State α
-  go : State α
+  ow : HState α
+  go : HState α
 
 def initState (c : Cell α) (start : α) : CellState α := { ow := c.ow.init start, go := c.go.init start }
 
@@ -368,8 +403,8 @@ def clamp01 (x : α) : α := if x < 0 then 0 else if 1 < x then 1 else x
 `oilWater.update(sw, sw, 1 - So)`, `gasOil.update(So, So, 1 - Swco - sg)`. -/
 def updateCell (c : Cell α) (st : CellState α) (s : Sat α) : CellState α :=
   if ¬ c.ow.enabled then st
-  else { ow := Hyst.update c.ow.curves st.ow (1 - clamp01 s.so),
-         go := Hyst.update c.go.curves st.go (1 - c.swl - clamp01 s.sg) }
+  else { ow := c.ow.update st.ow (1 - clamp01 s.so),
+         go := c.go.update st.go (1 - c.swl - clamp01 s.sg) }
 
 /-- `EclDefaultMaterial::krn`: saturation-weighted mean of the two two-phase oil relperms with
 the regularisation near `Sw + Sg = Swco`. -/
